@@ -130,7 +130,7 @@ func main() {
 	}
 	var jobs []sched.Job
 	specs := map[string]func() *txnh.TxnScenario{}
-	for _, bk := range common.Backends() {
+	for _, bk := range common.BackendsTier(run.Thorough()) {
 		for _, m := range bk.Modes {
 			if m.Async || m.OnePC {
 				// the async / 1PC variants are added only for committing programs on backends that implement them
@@ -140,7 +140,11 @@ func main() {
 				steps = pessSteps()
 			}
 			for _, lo := range []common.Layout{{Name: "split@b", Splits: []string{"b"}}} {
-				for _, p := range programs(steps, depth) {
+				d := depth
+				if bk.Name == "unistore" && !run.Thorough() {
+					d = 1
+				}
+				for _, p := range programs(steps, d) {
 					for _, ct := range contenders {
 						bk, m, lo, p, ct := bk, m, lo, p, ct
 						name := fmt.Sprintf("%s/%s/%s/T=%s/C=%s", bk.Name, lo.Name, m, p.name, ct.name)
